@@ -155,6 +155,19 @@ def query (st : Store Q) (s : String) : String :=
     | none => bad
   | _ => bad
 
+/-- positions, in the parameter list of circuit `h` after the operation, of the parameters the call returned
+    (`add_parameters` returns the new parameters, plain `add_Parametric*_gate` returns the raw parameter) -/
+def returned (st st' : Store Q) : Op Q → String
+  | .addParams h names =>
+    match st.circs[h]? with
+    | some c => let k := c.view.m.inP.length; ":" ++ ",".intercalate ((List.range names.length).map fun i => toString (k + i))
+    | none => ""
+  | .addPar h _ _ _ _ =>
+    match st.circs[h]?, st'.circs[h]? with
+    | some (.plain _ gs), some (.plain _ _) => ":" ++ toString (raws gs).length
+    | _, _ => ""
+  | _ => ""
+
 /-- ops are parsed one at a time against the current store (parameter references) -/
 def runOps (tb : Tables) : Store Q → List String → Option (Store Q × List String)
   | st, [] => some (st, [])
@@ -162,7 +175,7 @@ def runOps (tb : Tables) : Store Q → List String → Option (Store Q × List S
     let op ← op? st o
     let (st', e) := step tb st op
     let (st'', rs) ← runOps tb st' os
-    some (st'', (match e with | none => js "ok" | some e => js e.name) :: rs)
+    some (st'', (match e with | none => js ("ok" ++ returned st st' op) | some e => js e.name) :: rs)
 
 def splitTop (s : String) (sep : String) : List String :=
   if (tr s).isEmpty then [] else (s.splitOn sep).map tr
